@@ -119,7 +119,8 @@ func (f *FileReaderImpl) collectFromDirectory(dirPath string, recursive bool, in
 		}
 
 		// Skip common directories that shouldn't contain Python source files
-		if info.IsDir() && f.shouldSkipDirectory(info.Name()) {
+		// (but not the root directory being walked)
+		if info.IsDir() && path != dirPath && f.shouldSkipDirectory(info.Name()) {
 			return filepath.SkipDir
 		}
 
